@@ -134,6 +134,8 @@ type wres struct {
 }
 
 type world struct {
+	redials         []bool // outcome of every redial attempt, in order
+	deadBeforeClose bool
 	laterN  int
 	laterOK []string
 	p        params
@@ -164,6 +166,7 @@ func (w *world) dial(cfg transport.DialConfig) (transport.Transport, error) {
 	vsched.Yield("h:dial")
 	if n > 0 && vsched.ChooseBudget(fmt.Sprintf("dial-fail#%d", n), 2, vsched.BudF) == 1 {
 		w.failures++
+		w.redials = append(w.redials, false)
 		return nil, fmt.Errorf("fake: dial refused")
 	}
 	f := &fakeTr{w: w, idx: len(w.trs), cfg: cfg}
@@ -172,8 +175,10 @@ func (w *world) dial(cfg transport.DialConfig) (transport.Transport, error) {
 		if vsched.ChooseBudget(fmt.Sprintf("handshake-fail#%d", n), 2, vsched.BudF) == 1 {
 			w.failures++
 			f.readErr = fmt.Errorf("fake: handshake reset")
+			w.redials = append(w.redials, false)
 		} else {
 			f.inbox = append(f.inbox, []byte("hello"))
+			w.redials = append(w.redials, true)
 		}
 	}
 	w.trs = append(w.trs, f)
@@ -295,6 +300,7 @@ func (w *world) main() {
 			}
 		}
 	}
+	w.deadBeforeClose = !w.closed && w.finalW != nil
 	if !w.closed && w.finalW != nil {
 		w.phase = "later-exhausted"
 		later("exhausted")
@@ -344,6 +350,20 @@ func run(sc vlib.Scenario, cfg vsched.Config) (*vsched.Result, vlib.Verdict) {
 	}
 	if len(w.healthyClosed) > 0 {
 		v.Fail("C18.redial", fmt.Sprintf("healthy-connection-closed/dev=%v", dev), "the transport closed connection(s) %v although they had not failed and Close had not been called (%d failures injected, %d dials)", w.healthyClosed, w.failures, len(w.dials))
+	}
+	// the redial budget: the transport gives up after exactly MaxReconnectAttempts consecutive failed attempts
+	if w.deadBeforeClose {
+		run := 0
+		for i := len(w.redials) - 1; i >= 0 && !w.redials[i]; i-- {
+			run++
+		}
+		if run != w.p.Attempts {
+			kind := "gave-up-early"
+			if run > w.p.Attempts {
+				kind = "over-budget"
+			}
+			v.Fail("C18.budget", kind, "the transport gave up after %d consecutive failed redial attempts, MaxReconnectAttempts is %d (attempt outcomes %v)", run, w.p.Attempts, w.redials)
+		}
 	}
 	if len(w.laterOK) > 0 {
 		v.Fail("C18.later", "write-accepted-on-dead-transport", "Write %s returned nil although the transport was already dead", w.laterOK[0])
